@@ -170,6 +170,9 @@ func RunHistory(t *testing.T, h *HistCase) *HistResult {
 				res.Misses++
 				res.Stats["miss:"+o.Op]++
 			}
+			for _, op := range ref.OpenPoints(o) {
+				res.Stats[op]++
+			}
 			oh.Write([]byte(o.String()))
 			oh.Write([]byte{0})
 			line := where + " " + o.String()
